@@ -74,6 +74,8 @@ static int val_index(void *v)
 	return (int)((struct val *)v - vals);
 }
 
+static int notifier_mutates, in_open_iter_next, nested_rm; static long n_nested_rm;
+static void nested_remove_from_notifier(void);
 static void on_notify(uint32_t event, char *key, void *oldv, void *newv, void *ud)
 {
 	n_notifs++;
@@ -90,6 +92,9 @@ static void on_notify(uint32_t event, char *key, void *oldv, void *newv, void *u
 		if (vi < 0) { vp_violation(mkey("map:free-notifier-bad-value"), "FREE notification with unknown old value %p", oldv); return; }
 		if (vals[vi].freed) vp_violation(mkey("map:value-freed-twice"), "value id=%d released twice", vi);
 		vals[vi].freed++;
+		/* a notifier that itself changes the map: the release of an entry (delivered inside qb_map_iter_next() when the
+		 * iterator was the last one holding it) makes the application remove another entry */
+		if (notifier_mutates && in_open_iter_next && !nested_rm) { nested_rm = 1; nested_remove_from_notifier(); nested_rm = 0; }
 	}
 }
 
@@ -262,6 +267,18 @@ static void it_finish(int i, int exhausted)
 	IT[i].it = NULL; nopen--;
 }
 
+static vprng_t *cur_rng;
+static void nested_remove_from_notifier(void)
+{
+	int c[MAXK], n = 0; for (int i = 0; i < nkeys; i++) if (model[i] >= 0) c[n++] = i;
+	if (!n) return;
+	int k = c[vp_u(cur_rng, (uint32_t)n)]; int old = model[k];
+	int rc = qb_map_rm(m, K(k, 0)); n_nested_rm++; n_rms++;
+	if (!rc) vp_violation(mkey("map:rm-present-returns-false"), "rm(key#%d) from inside a notifier returned 0", k);
+	kheld[k] = -2;
+	model[k] = -1; model_count--; vals[old].in_map = 0; it_note_remove(k);
+	if (impl != TRIE) for (int i = 0; i < nN; i++) if (N[i].active && N[i].key == k) N[i].active = 0;
+}
 static void run_case(long kase)
 {
 	vprng_t r; vp_seed(&r, vp.seed, (uint64_t)kase);
@@ -269,6 +286,7 @@ static void run_case(long kase)
 	nvals = 0; nN = 0; model_count = 0; nopen = 0; featP = featR = featD = featA = 0;
 	static int removed_while_open[MAXK]; memset(removed_while_open, 0, sizeof removed_while_open);
 	for (int i = 0; i < MAXK; i++) { model[i] = -1; ever_put[i] = 0; }
+	cur_rng = &r; notifier_mutates = with_iters && impl == HASH && vp_chance(&r, 1, 3); in_open_iter_next = 0;
 	memset(IT, 0, sizeof IT);
 	m = impl == HASH ? qb_hashtable_create(vp_chance(&r, 1, 2) ? 4 : 64) : impl == SKIP ? qb_skiplist_create() : qb_trie_create();
 	if (!m) { vp_violation(mkey("map:create-failed"), "create"); return; }
@@ -396,7 +414,7 @@ static void run_case(long kase)
 				int i = c[vp_u(&r, (uint32_t)n)];
 				int steps = 1 + (int)vp_u(&r, 3);
 				while (steps-- > 0 && IT[i].it) {
-					void *v = NULL; const char *key = qb_map_iter_next(IT[i].it, &v);
+					in_open_iter_next = 1; void *v = NULL; const char *key = qb_map_iter_next(IT[i].it, &v); in_open_iter_next = 0;
 					if (!key) { IT[i].parked = -1; it_finish(i, 1); break; }
 					int ki = key_index(key);
 					if (ki < 0 || ki >= 1000) { vp_violation(mkey("map:iteration-unknown-key"), "open iterator returned foreign key pointer %p", (void *)key); break; }
@@ -449,7 +467,7 @@ int main(int argc, char **argv)
 	hazard_mask = (int)vp_argl("--forbid", 0);
 	for (long k = vp.case_from; k < vp.case_to; k++) { vp_begin_case(k); run_case(k); }
 	vp_count("ops", n_ops); vp_count("puts", n_puts); vp_count("rms", n_rms); vp_count("rm_of_absent_key", n_absent_rm);
-	vp_count("key_storage_scribbled_over", n_poisoned);
+	vp_count("key_storage_scribbled_over", n_poisoned); vp_count("removes_from_inside_a_notifier_during_iter_next", n_nested_rm);
 	vp_count("gets_judged", n_gets); vp_count("full_iterations", n_iters_full); vp_count("prefix_iterations", n_pref);
 	vp_count("foreach_abandoned", n_foreach_abandon); vp_count("notifications_seen", n_notifs); vp_count("free_notifications", n_frees);
 	vp_count("iterators_opened", n_iter_open); vp_count("rm_of_parked_entry", n_rm_parked); vp_count("iterators_abandoned", n_iter_abandoned);
